@@ -412,3 +412,32 @@ Proof.
   destruct (H (ctx1 1) (WWriteCoil 0 4660) _ c' o (ctx1_inv 1) eq_refl I Es) as [H1 _].
   vm_compute in Es. injection Es as <- <-. vm_compute in H1. discriminate H1.
 Qed.
+
+(* ------------------------------------------------------------------ exception frame along a history *)
+
+(* every intermediate store of a history, paired with the response produced from it *)
+Fixpoint trace (c : slavectx) (rs : list req) : list (slavectx * rsp * slavectx) :=
+  match rs with
+  | [] => []
+  | r :: t => let '(c1, o) := serve XC std c r in (c, o, c1) :: trace c1 t
+  end.
+
+Lemma step_inv c w r : inv c -> decode_attrs w = Ok r -> other_ok w -> inv (fst (serve XC std c r)).
+Proof.
+  intros Hi Hd Ho. destruct (step_norm c w r Hi Hd Ho) as (c1 & o & Hs & Hi1 & _). rewrite Hs. exact Hi1.
+Qed.
+
+(* in any history of decodable requests (defect regions included), each step that answers
+   with an exception leaves the store untouched *)
+Theorem history_exception_frame : forall ws rs c,
+  inv c -> Forall2 (fun w r => decode_attrs w = Ok r) ws rs -> Forall other_ok ws ->
+  forall c0 fc code c1, In (c0, Exc fc code, c1) (trace c rs) -> c1 = c0.
+Proof.
+  induction ws as [|w ws IH]; intros rs c Hi Hd Ho c0 fc code c1 Hin.
+  - inversion Hd; subst. destruct Hin.
+  - inversion Hd as [|w' r ws' rs' Hd1 Hd2]; subst. inversion Ho as [|? ? Ho1 Ho2]; subst.
+    cbn [trace] in Hin. destruct (serve XC std c r) as [cn o] eqn:Es. destruct Hin as [Heq|Hin].
+    + injection Heq as <- -> <-. eapply exception_frame; eassumption.
+    + pose proof (step_inv c w r Hi Hd1 Ho1) as Hi1. rewrite Es in Hi1. cbn [fst] in Hi1.
+      eapply IH; eassumption.
+Qed.
